@@ -54,6 +54,7 @@ partial def parseIdxArg (s : String) : Option IdxArg :=
   match s.splitOn ":" with
   | ["c", _, v] => some ⟨some (.int v.toInt!), 0, false⟩
   | ["v", _, vs] => let l := (vs.splitOn ",").map String.toInt!; some ⟨some (.vecInts l), l.length, false⟩
+  | ["m", _, es] => let n := (es.splitOn ",").length; some ⟨some (.vecOther n), n, false⟩
   | ["z", t] => (tyArg t).map fun ty => ⟨some .zero, (vecInfo ty).1, (vecInfo ty).2⟩
   | ["u", t] => (tyArg t).map fun ty => ⟨some .undef, (vecInfo ty).1, (vecInfo ty).2⟩
   | ["o", t] => (tyArg t).map fun ty => ⟨some .poison, (vecInfo ty).1, (vecInfo ty).2⟩
